@@ -3,11 +3,11 @@ CONSTANTS
   NB = 1
   Par <- MC_Par4
   GitOnly = {4}
-  MaxSteps = 5
+  MaxSteps = 0
   MaxTerms = 5
-  Emit = "all"
-  Bug = "none"
+  Emit = "none"
+  Bug = "ff_shortcut"
 CONSTRAINT Small
 VIEW View
-INVARIANTS InvStep InvConverge InvIdem
+INVARIANTS InvStep
 CHECK_DEADLOCK FALSE
